@@ -106,6 +106,12 @@ func verifC12(tlsActive bool) {
 		}
 	}
 	in := hello + " c\r\n" + probes[probe] + "\r\n"
+	if probe == 6 && !tlsActive {
+		// STARTTLS from plaintext never gets through here (the handshake
+		// fails): the connection stays what it was, and a second greeting
+		// must list exactly what the first one did
+		in += hello + " c\r\n"
+	}
 	vc := &vconn{in: []byte(in), final: io.EOF, tlsIn: []byte(in), tlsFinal: io.EOF}
 	// without a TLS peer a real handshake over this connection fails; the stub
 	// is told to fail likewise so that native and symbolic runs agree
@@ -141,6 +147,20 @@ func verifC12(tlsActive bool) {
 	verifObserve("c12", len(eh.lines), probe, reps[len(reps)-1].code)
 	// probe outcome
 	last := reps[len(reps)-1]
+	if probe == 6 && !tlsActive {
+		again := last
+		last = reps[len(reps)-2]
+		if last.code == 220 && len(reps) >= 5 {
+			last = reps[len(reps)-3] // 220, then the handshake error, then the greeting
+		}
+		same := again.code == 250 && len(again.lines) == len(eh.lines)
+		if same {
+			for i := range eh.lines {
+				same = same && again.lines[i] == eh.lines[i]
+			}
+		}
+		verifAssert(same, "C12.same-capabilities-after-failed-starttls")
+	}
 	enabled := []bool{cfg.utf8, cfg.reqtls, cfg.binmime, cfg.dsn, cfg.dsn, true, cfg.tls == 1, cfg.dsn, cfg.dsn, cfg.rrvs, cfg.rrvs}[probe]
 	if enabled {
 		verifReach("C12.probe-enabled")
